@@ -6,6 +6,7 @@ code is attributed to the properties that are about names.
 import SimpleDnsModel.Generated.Envelope
 import SimpleDnsModel.Model.Match
 import SimpleDnsModel.Model.Pipeline
+import SimpleDnsModel.Model.Compress
 import SimpleDnsModel.Props.TieEnvDefs
 namespace Dns.TieEnv
 open Dns
@@ -176,4 +177,40 @@ theorem name_parse_source (d : Bytes) (s : NS) (pos : Nat) :
   have h2 : Gen.Env.nameParseOps.getD modelNameParseOps = modelNameParseOps := by decide
   rw [h1, h2, nameStepWith_model]
   exact ⟨nameLoop_step d s, rfl⟩
+/-! ### 22. the writers of a name: `plain_append`, `compress_append` (`name.rs`) -/
+
+def maskNamed (s : String) : Nat := if s = "POINTER_MASK_U16" then 0xC000 else if s = "POINTER_MASK" then 0xC0 else 0
+def boundNamed (s : String) : Nat := if s = "MAX_POINTER_OFFSET" then 0x3FFF else if s = "MAX_NAME_LENGTH" then 255 else 0
+
+/-- `Name::compress_append` with the pointer mask and the rule for entering a position into the table
+as parameters -/
+def compressNameWith (spec : List String) : Name → Nat → Table → Bytes × Table
+  | [], _, t => ([0], t)
+  | l :: rest, off, t =>
+    match Table.find t (l :: rest) with
+    | some p => (beN 2 (p ||| maskNamed (spec.getD 0 "")), t)
+    | none =>
+      let r := compressNameWith spec rest (off + 1 + l.length)
+        (if cmpOf (spec.getD 1 "") off (boundNamed (spec.getD 2 "")) then (l :: rest, off) :: t else t)
+      (UInt8.ofNat l.length :: (l ++ r.1), r.2)
+
+/-- **`compress_append` is the model's `compressName`**: a suffix already in the table is written as
+its offset with the two high bits set and ends the name; otherwise the label is written and its
+position entered into the table when it is at most `MAX_POINTER_OFFSET` (`<` for `<=`, or the 8-bit
+mask, regenerate other values and this fails; a body of another shape - the bound dropped, a suffix
+entered after it was written - unties the item) -/
+theorem name_write_source (n : Name) (off : Nat) (t : Table) :
+    compressName n off t =
+      compressNameWith (Gen.Env.nameWrite.getD ["POINTER_MASK_U16", "<=", "MAX_POINTER_OFFSET"]) n off t := by
+  have h : Gen.Env.nameWrite.getD ["POINTER_MASK_U16", "<=", "MAX_POINTER_OFFSET"] =
+      ["POINTER_MASK_U16", "<=", "MAX_POINTER_OFFSET"] := by decide
+  rw [h]
+  induction n generalizing off t with
+  | nil => rfl
+  | cons l rest ih =>
+    simp only [compressName, compressNameWith]
+    cases Table.find t (l :: rest) with
+    | some p => simp [maskNamed]
+    | none => simp [ih, cmpOf, boundNamed]
+
 end Dns.TieEnv
